@@ -1429,19 +1429,25 @@ impl<'a> Parser<'a> {
             return false;
         }
 
-        // Look ahead to find comma before the matching ParenEnd. The scan is not limited to
-        // MAX_LOOKAHEAD tokens: the first element of a tuple can be arbitrarily long.
-        let mut depth = 0;
+        // Look ahead to find a comma of this parenthesis before the matching ParenEnd. The scan is
+        // not limited to MAX_LOOKAHEAD tokens: the first element of a tuple can be arbitrarily long.
+        // A comma inside a nested `(..)`, `[..]`, `{..}` or between the bars of a lambda's
+        // parameter list belongs to that construct, not to this parenthesis.
+        let mut depth = 0usize;
+        let mut in_lambda_params = false;
         for i in 1.. {
             match self.peek_ahead(i) {
-                Some(TokenKind::ParenBegin) => depth += 1,
-                Some(TokenKind::ParenEnd) => {
-                    if depth == 0 {
-                        return false; // no comma found
-                    }
-                    depth -= 1;
+                Some(TokenKind::ParenBegin | TokenKind::ArrayBegin | TokenKind::BlockBegin) => {
+                    depth += 1
                 }
-                Some(TokenKind::Comma) if depth == 0 => return true,
+                Some(TokenKind::ParenEnd) if depth == 0 => return false, // no comma found
+                Some(TokenKind::ParenEnd | TokenKind::ArrayEnd | TokenKind::BlockEnd) => {
+                    depth = depth.saturating_sub(1)
+                }
+                Some(TokenKind::LambdaArgBeginEnd) if depth == 0 => {
+                    in_lambda_params = !in_lambda_params
+                }
+                Some(TokenKind::Comma) if depth == 0 && !in_lambda_params => return true,
                 None => return false,
                 _ => {}
             }
